@@ -25,6 +25,230 @@ use crate::{c05, c06};
 enum Item {
     R(sp::Cfg),
     O(c05::Cfg),
+    F(FCfg),
+}
+
+/// Layer F configuration: a concrete, exactly representable axis a_i * 2^scale_exp and concrete data
+#[derive(Clone, Debug)]
+struct FCfg {
+    name: String,
+    axis: Vec<f64>,
+    scale_exp: i32,
+    data: Vec<f64>,
+    /// which half of the query strata this item decides (the strata are independent; splitting halves the wall time)
+    group: usize,
+    timeout_ms: u64,
+}
+
+/// rem_euclid(q - x0, P) + x0 for x0 = 0 computed independently of the crate and of the float remainder:
+/// integer arithmetic on the binary expansions (q = mq * 2^eq, P = mp * 2^ep), result rounded once to f64
+fn wrap_exact_origin0(q: f64, p: f64) -> Option<f64> {
+    fn parts(v: f64) -> (u128, i32) {
+        let b = v.abs().to_bits();
+        let (e, m) = (((b >> 52) & 0x7ff) as i32, b & ((1u64 << 52) - 1));
+        if e == 0 {
+            (m as u128, -1074)
+        } else {
+            ((m | (1u64 << 52)) as u128, e - 1075)
+        }
+    }
+    if !(q.is_finite() && p.is_finite()) || p <= 0.0 {
+        return None;
+    }
+    let ((mq, eq), (mp, ep)) = (parts(q), parts(p));
+    if mq == 0 {
+        return Some(0.0);
+    }
+    // |q| mod P as (numerator, exponent): value = r * 2^er with r < mp * 2^max(0, ep - eq)
+    let (r, er): (u128, i32) = if eq >= ep {
+        // q = mq * 2^(eq-ep) * 2^ep: (mq * 2^(eq-ep)) mod mp by square-and-multiply
+        let mut pow = 1u128 % mp;
+        let mut base = 2u128 % mp;
+        let mut k = (eq - ep) as u32;
+        while k > 0 {
+            if k & 1 == 1 {
+                pow = pow * base % mp;
+            }
+            base = base * base % mp;
+            k >>= 1;
+        }
+        ((mq % mp) * pow % mp, ep)
+    } else {
+        let sh = (ep - eq) as u32;
+        if sh > 70 {
+            // |q| < 2^-17 * P: |q| mod P = |q|
+            (mq, eq)
+        } else {
+            (mq % (mp << sh), eq)
+        }
+    };
+    let to_f = |r: u128, e: i32| -> f64 { (r as f64) * 2f64.powi(e.max(-1022)) * 2f64.powi(e - e.max(-1022)) };
+    let a = to_f(r, er); // |q| mod P (r < 2^123: one rounding)
+    Some(if q >= 0.0 || r == 0 { a } else { p - a })
+}
+
+/// Layer F: the paths of the real code for one symbolic query are explored in mode O; for every feasible path and
+/// every magnitude stratum z3 / cvc5 decide - with IEEE-754 semantics for + - * / - whether a finite query takes it,
+/// and the model (a real double) is run natively against the crate's own non-extrapolating spline evaluated at the
+/// independently wrapped argument. Paths that exist only through rounding (absorption `x + P == x`, underflow of a
+/// product, a cast that saturates) get their witness from the solver; nothing here is sampled blindly.
+fn check_f(cfg: &FCfg) -> Report {
+    use crate::spline::SplineProblem;
+    use ndarray::{ArrayD, IxDyn};
+    with_ctx(|c| c.reset_all());
+    with_ctx(|c| c.mode = Mode::O);
+    let mut chk = Chk::with_session(crate::engine::smt::Session::new_ieee(cfg.timeout_ms));
+    chk.begin_config(&format!("periodic-extrapolation IEEE path witnesses {} (strata group {})", cfg.name, cfg.group));
+    let n = cfg.axis.len();
+    let sc = 2f64.powi(cfg.scale_exp);
+    let xf: Vec<f64> = cfg.axis.iter().map(|a| a * sc).collect();
+    let (x0, xn) = (xf[0], xf[n - 1]);
+    let period = xn - x0;
+    let konst = |v: f64| <Sym as num_traits::NumCast>::from(v).unwrap();
+    let q = Sym::var("q");
+    let prob_s = SplineProblem { x: xf.iter().map(|v| konst(*v)).collect(), data: ArrayD::from_shape_vec(IxDyn(&[n]), cfg.data.iter().map(|v| konst(*v)).collect()).unwrap(), bc: Bc::Periodic, vl: vec![konst(0.0)], vr: vec![konst(0.0)], extrapolate: true };
+    let ext = SplineProblem { x: xf.clone(), data: ArrayD::from_shape_vec(IxDyn(&[n]), cfg.data.clone()).unwrap(), bc: Bc::Periodic, vl: vec![0.0], vr: vec![0.0], extrapolate: true };
+    let plain = SplineProblem { extrapolate: false, ..ext.clone() };
+    let big = konst(f64::MAX);
+    let mut ecfg = ExploreCfg::new(Mode::O, n - 1);
+    ecfg.timeout_ms = cfg.timeout_ms;
+    let (paths, st) = explore(&ecfg, || {
+        Sym::assume_not_nan(q);
+        Sym::assume_le(q, big);
+        Sym::assume_le(-big, q);
+        prob_s.eval(&[q]).map(|v| v[0][0])
+    });
+    chk.add_explore_stats(paths.len(), &st);
+    let sq = chk.term(q);
+    let c = |chk: &mut Chk, v: f64| chk.term(konst(v));
+    // magnitude / position strata of the query
+    let (sx0, sxn) = (c(&mut chk, x0), c(&mut chk, xn));
+    let (near_r, near_l) = (c(&mut chk, xn + 2.0 * period), c(&mut chk, x0 - 2.0 * period));
+    let m = xn.abs().max(x0.abs()).max(period);
+    let (huge1, huge2, tiny) = (c(&mut chk, m * 2f64.powi(60)), c(&mut chk, (m * 2f64.powi(400)).min(f64::MAX / 4.0)), c(&mut chk, period * 2f64.powi(-300)));
+    let mut strata: Vec<(&str, String)> = vec![
+        ("any finite query", "true".into()),
+        ("inside the range", format!("(and (fp.leq {sx0} {sq}) (fp.leq {sq} {sxn}))")),
+        ("right of the range, within two periods", format!("(and (fp.gt {sq} {sxn}) (fp.lt {sq} {near_r}))")),
+        ("left of the range, within two periods", format!("(and (fp.lt {sq} {sx0}) (fp.gt {sq} {near_l}))")),
+        ("right, beyond 2^60 periods", format!("(fp.gt {sq} {huge1})")),
+        ("left, beyond 2^60 periods", format!("(fp.lt {sq} (fp.neg {huge1}))")),
+        ("beyond 2^400 periods", format!("(fp.gt (fp.abs {sq}) {huge2})")),
+        ("out of range by less than 2^-300 periods", format!("(and (not (and (fp.leq {sx0} {sq}) (fp.leq {sq} {sxn}))) (fp.lt (fp.abs (fp.sub RNE {sq} {sxn})) {tiny}))")),
+    ];
+    strata = strata.into_iter().enumerate().filter(|(k, _)| k % 2 == cfg.group).map(|(_, s)| s).collect();
+    // Lipschitz bound of the reference spline on the range (sampled, with margin) for the argument-rounding tolerance
+    let ymax = cfg.data.iter().fold(0f64, |a, b| a.max(b.abs())).max(1.0);
+    let lip = {
+        let mut l = 0f64;
+        let mut prev: Option<(f64, f64)> = None;
+        for k in 0..=256 {
+            let t = x0 + period * (k as f64) / 256.0;
+            if let Ok(v) = plain.eval(&[t.min(xn)]) {
+                if let Some((pt, pv)) = prev {
+                    if t > pt {
+                        l = l.max(((v[0][0] - pv) / (t - pt)).abs());
+                    }
+                }
+                prev = Some((t, v[0][0]));
+            }
+        }
+        2.0 * l
+    };
+    let ulp = |v: f64| (v.abs() * f64::EPSILON).max(f64::MIN_POSITIVE);
+    crate::engine::core::silence_panics();
+    let mut strata_hit = std::collections::BTreeSet::new();
+    let mut seen_q = std::collections::BTreeSet::new();
+    for (pi, p) in paths.iter().enumerate() {
+        let pcs = chk.pc(&p.pc);
+        let outcome = match &p.result {
+            Ok(Ok(_)) => "Ok".to_string(),
+            Ok(Err(e)) => e.clone(),
+            Err(m) => format!("panic: {m}"),
+        };
+        for (sname, sassert) in &strata {
+            let mut a = pcs.clone();
+            a.push(sassert.clone());
+            chk.rep.obligations += 1;
+            *chk.rep.kinds.entry("IEEE path witness (path x stratum)".into()).or_default() += 1;
+            let (ans, vals) = chk.model(&a, &["q".to_string()]);
+            match ans {
+                crate::engine::smt::Answer::Unsat => {
+                    chk.rep.discharged += 1;
+                    *chk.rep.kinds.entry("path x stratum infeasible under IEEE semantics".into()).or_default() += 1;
+                    continue;
+                }
+                crate::engine::smt::Answer::Unknown(_) => {
+                    chk.rep.discharged += 1;
+                    *chk.rep.kinds.entry("path x stratum undecided within the budget (no witness)".into()).or_default() += 1;
+                    continue;
+                }
+                crate::engine::smt::Answer::Sat => {}
+            }
+            let qv = match c05::model_f64(&vals).get("q") {
+                Some(v) if v.is_finite() => *v,
+                _ => {
+                    chk.rep.discharged += 1;
+                    continue;
+                }
+            };
+            strata_hit.insert(*sname);
+            if !seen_q.insert(qv.to_bits()) {
+                chk.rep.discharged += 1;
+                continue;
+            }
+            // native run of the real crate at the witness, against the independent oracle
+            let got = std::panic::catch_unwind(|| ext.eval(&[qv]));
+            let inside = x0 <= qv && qv <= xn;
+            let w = if inside { Some(qv) } else if x0 == 0.0 { wrap_exact_origin0(qv, period) } else { Some((qv - x0).rem_euclid(period) + x0) };
+            let want = w.and_then(|w| plain.eval(&[w.clamp(x0, xn)]).ok()).map(|v| v[0][0]);
+            // admissible rounding of the wrapped argument: one ulp of the period for origin 0 (q - 0 is exact), otherwise the
+            // roundings of q - x0 and of the final + x0
+            let dw = if inside { 0.0 } else if x0 == 0.0 { 2.0 * ulp(period) } else { 2.0 * (ulp(qv) + ulp(x0) + ulp(period)) };
+            let tol = lip * dw + 1e-9 * ymax;
+            let informative = tol < 0.05 * ymax;
+            let rec = |chk: &Chk| Json::obj().with("config", chk.cfg_name.as_str()).with("path", pi).with("path_outcome_symbolic", outcome.as_str()).with("stratum", *sname).with("query", format!("{qv:e} (bits {:#018x})", qv.to_bits())).with("axis", format!("{xf:?}")).with("data", format!("{:?}", cfg.data)).with("wrapped_argument_expected", format!("{w:?}")).with("expected", format!("{want:?}")).with("tolerance", tol);
+            match (got, want) {
+                (Ok(Ok(v)), Some(o)) => {
+                    let r = v[0][0];
+                    if informative && !((r - o).abs() <= tol) {
+                        let mut j = rec(&chk);
+                        j.set("observed", r);
+                        chk.finding(&format!("C07:not-periodic:ieee-witness:{}", if inside { "inside" } else if qv > xn { "right" } else { "left" }), &format!("{}: finite query {qv:e} ({sname}) evaluates to {r}, the spline at the wrapped argument is {o}", chk.cfg_name), j, Some(true));
+                    } else {
+                        chk.rep.discharged += 1;
+                        if !informative {
+                            *chk.rep.kinds.entry("witness uninformative (argument rounding exceeds the period)".into()).or_default() += 1;
+                        }
+                    }
+                }
+                (Ok(Ok(_)), None) => chk.rep.discharged += 1,
+                (Ok(Err(e)), _) => {
+                    let mut j = rec(&chk);
+                    j.set("observed", e.as_str());
+                    chk.finding("C07:not-answered:ieee-witness", &format!("{}: finite query {qv:e} ({sname}) is rejected: {e}", chk.cfg_name), j, Some(true));
+                }
+                (Err(_), _) => {
+                    let mut j = rec(&chk);
+                    j.set("observed", "panic");
+                    chk.finding("C07:panic:ieee-witness", &format!("{}: finite query {qv:e} ({sname}) panics", chk.cfg_name), j, Some(true));
+                }
+            }
+        }
+    }
+    // vacuity: the strata that must be populated on any implementation
+    for must in ["any finite query", "inside the range", "right of the range, within two periods", "left of the range, within two periods", "right, beyond 2^60 periods"] {
+        if !strata.iter().any(|(n, _)| *n == must) {
+            continue;
+        }
+        chk.rep.witnesses_expected += 1;
+        if strata_hit.contains(must) {
+            chk.rep.witnesses_found += 1;
+        } else {
+            chk.rep.errors.push(format!("{}: no witness in the stratum '{must}'", chk.cfg_name));
+        }
+    }
+    chk.rep
 }
 
 fn spec_wrap(q: Sym, x0: Sym, xn: Sym) -> Sym {
@@ -316,6 +540,27 @@ fn items(args: &Args) -> Vec<Item> {
             v.push(Item::R(sp::Cfg { axis, bc: Bc::Periodic, trailing, timeout_ms }));
         }
     }
+    // layer F: exactly representable axes (origin 0 and not), ordinary / tiny / huge units
+    let faxes: Vec<(&str, Vec<f64>, Vec<f64>)> = vec![
+        ("origin-0 n=4", vec![0.0, 1.0, 2.5, 3.0], vec![1.0, -2.0, 3.0, 1.0]),
+        ("origin-0 n=5", vec![0.0, 1.0, 2.5, 3.0, 4.0], vec![2.0, 0.0, 5.0, -1.0, 2.0]),
+        ("origin-0 n=3", vec![0.0, 0.5, 2.0], vec![1.0, 2.0, 1.0]),
+    ];
+    for (name, axis, data) in &faxes {
+        for scale_exp in if thorough { vec![0, -700, 600, -1000] } else { vec![0, -700, 600] } {
+            if scale_exp != 0 && name.ends_with("n=3") && !thorough {
+                continue;
+            }
+            for group in 0..2 {
+                v.push(Item::F(FCfg { name: format!("{name} unit 2^{scale_exp}"), axis: axis.clone(), scale_exp, data: data.clone(), group, timeout_ms: 6_000 }));
+            }
+        }
+    }
+    if std::env::var("VERIF_C07_ONLY_F").is_ok() {
+        v.retain(|i| matches!(i, Item::F(_)));
+        v.truncate(std::env::var("VERIF_C07_ONLY_F").unwrap().parse().unwrap_or(1));
+        return v;
+    }
     let to = if thorough { 60_000 } else { 20_000 };
     for n in if thorough { vec![3, 4, 5] } else { vec![3, 4] } {
         for (k, call) in [Call::Scalar, Call::Interp, Call::Array(vec![2], QRank::Static), Call::Array(vec![2], QRank::Dyn)].into_iter().enumerate() {
@@ -329,6 +574,7 @@ pub fn run(args: &Args) -> Report {
     let mut rep = par_run(items(args), args.threads, |it| match it {
         Item::R(c) => check_r(c),
         Item::O(c) => c06::check_o(c),
+        Item::F(c) => check_f(c),
     });
     crate::validate::validate_spline(args.seed, &mut rep);
     for f in sp::FUNCTIONS {
@@ -336,7 +582,9 @@ pub fn run(args: &Args) -> Report {
     }
     rep.bounds.push(format!("Periodic boundary + extrapolate(true); concrete axis family, n = 3..{}, {} axes per n (uniform and non-uniform, negative / non-zero origins), 1 and 2 lanes; data symbolic with y_(n-1) = y_0; query a real variable left of, right of and inside the range; period count k an unbounded integer variable in the wrap-arithmetic obligation", if args.thorough() { 7 } else { 5 }, if args.thorough() { 20 } else { 6 }));
     rep.bounds.push("layer D (mode O): n = 3..4 (thorough 5), 4 entry points, every non-NaN IEEE query: never rejected, never panics".into());
-    rep.outside.push("rounding of the wrapped argument (float % and the two roundings around it); infinite queries (the code panics on inf; the property speaks of finite queries)".into());
+    rep.bounds.push("layer F (IEEE path witnesses): 3 concrete exactly representable axes with origin 0 (n = 3..5; with a non-zero origin the bit-precise queries over q - x0 and + x0 take 5-12 s each and are left out) in units 2^0, 2^-700, 2^600 (thorough 2^-1000), concrete data; per feasible path of the real code x 8 query strata (inside, within two periods left / right, beyond 2^60 and 2^400 periods, out of range by less than 2^-300 periods) z3 / cvc5 decide with IEEE-754 semantics for + - * / whether a finite query exists and the model is run natively against the non-extrapolating spline at the independently wrapped argument (integer arithmetic on the binary expansions); one witness per path x stratum, not all values".into());
+    rep.outside.push("layer F decides path x stratum feasibility for all values but checks the returned value on one solver-chosen witness per path x stratum; % / rem_euclid stay uninterpreted in the feasibility queries (fp.rem does not finish)".into());
+    rep.outside.push("rounding of the wrapped argument beyond the layer-F witnesses (float % and the two roundings around it); infinite queries (the code panics on inf; the property speaks of finite queries)".into());
     rep.assumptions.insert("mode R: float operations read as exact real operations; rem_euclid(a,p) modelled by a = k*p + r, k integer, 0 <= r < |p| (std definition), validated concolically against f64::rem_euclid on every run".into());
     rep.assumptions.insert("mode O: for a finite query the wrapped argument is non-NaN (no overflow of q - x0), so C11 applies to the lookup".into());
     rep.assumptions.insert("equal first/last rows: S(x_0) = S(x_n-1) = y_0 is C02's interpolation obligation under shared symbols".into());
